@@ -163,7 +163,6 @@ pub fn construct(op: u8, c: usize, r: usize) {
         assert!(t.size() == (c, r), "ORACLE: new size");
         inv(&t);
         cells_live_distinct(&t);
-        assert!(made() == n, "ORACLE: new created a different number of elements");
         drop(t);
     } else {
         let t: TooDee<Tok> = TooDee::init(c, r, tok(5));
